@@ -702,7 +702,7 @@ impl Runner {
         let mut best = v;
         // records that are not buffers judged in-process are not shrunk (programs,
         // build combinations) or only briefly (each attempt spawns processes)
-        if matches!(&*best.rec.sub, "compile" | "lattice" | "build" | "race" | "variant-crash" | "crash" | "cachegrind") {
+        if matches!(&*best.rec.sub, "compile" | "lattice" | "build" | "race" | "variant-crash" | "crash" | "cachegrind" | "memcheck-hang") {
             return best;
         }
         let mut budget = if &*best.rec.sub == "variant-pair" { 250usize } else if &*best.rec.sub == "memcheck" { 40usize } else { 3000usize };
